@@ -14,7 +14,9 @@ PAGE_RECT = (0, 0, 100, 100)
 
 
 def num(x):
-    """Wire atom of a Python number."""
+    """Wire atom of a Python number (`None` — a CSS `none` component kept by tinycss2 — is the atom `none`)."""
+    if x is None:
+        return 'none'
     if isinstance(x, bool):
         raise TypeError(x)
     if isinstance(x, int):
@@ -293,6 +295,8 @@ def palette(rng, n=5):
         else:
             coords = [rng.choice([0, 50, 100, 0.5, 25]), rng.choice([0, 0.25, -20, 40, 0.125]),
                       rng.choice([0, 30, -0.25, 90, 180])]
+        if rng.random() < 0.3:      # CSS Color 4 `none` component: tinycss2 keeps it as None
+            coords[rng.randrange(3)] = None
         out.append((space, coords))
     return out
 
